@@ -31,7 +31,7 @@ def run(ctx):
     scans = sum(1 for e in events if "found" in e)
     ctx.cov["buffer_scans"] = scans
     ctx.sample({"impl_trace_events": [e for e in events if e["ev"] in ("keygen", "update")][:3]})
-    proj = [[{k: v for k, v in e.items() if k in ("ev", "depth", "compact", "ok", "found", "buf_zero", "seed_zero", "pk", "to_pk", "period", "size")}
+    proj = [[{k: v for k, v in e.items() if k in ("ev", "depth", "compact", "ok", "found", "buf_zero", "seed_zero", "pk", "to_pk", "period", "size", "stale", "dirty")}
              for e in s if e["ev"] in ("keygen", "update", "dropped")] for s in segs]
 
     fails, nok = K.validate(ctx, "TraceKesC13.cfg", proj, "c13strict")
